@@ -126,7 +126,7 @@ theorem wnNum_cyclic (pt a b : K × K) (rest : List (K × K)) :
 /-! ### `convex_hull`: the result only contains input points -/
 
 theorem popWhile_subset (r : K × K) : ∀ (h : List (K × K)), ∀ x ∈ popWhile r h, x ∈ h
-  | [], x, hx => by simpa [popWhile] using hx
+  | [], x, hx => by simp [popWhile] at hx
   | [b], x, hx => by simpa [popWhile] using hx
   | b :: a :: rest, x, hx => by
     rw [popWhile] at hx
@@ -187,5 +187,111 @@ theorem convexHull_subset (pts : List (K × K)) (x : K × K) (hx : x ∈ convexH
   · exact (sortLex_perm pts).mem_iff.mp (halfHull_subset _ x h)
   · have h1 : x ∈ halfHull (sortLex pts).reverse := List.mem_of_mem_drop (List.mem_of_mem_dropLast h)
     exact (sortLex_perm pts).mem_iff.mp (List.mem_reverse.mp (halfHull_subset _ x h1))
+
+/-! ### `convex_hull`: each half hull is a chain of strict left turns -/
+
+/-- a (top-first) stack in which every three consecutive points `a, b, c` (in push order) make a
+    strict left turn -/
+def LeftChain : List (K × K) → Prop
+  | c :: b :: a :: rest => turn a b c = 1 ∧ LeftChain (b :: a :: rest)
+  | _ => True
+
+theorem LeftChain_tail : ∀ (h : List (K × K)), LeftChain h → LeftChain h.tail
+  | [], _ => trivial
+  | [_], _ => trivial
+  | [_, _], _ => trivial
+  | _ :: _ :: _ :: _, hc => hc.2
+
+theorem popWhile_chain (r : K × K) : ∀ (h : List (K × K)), LeftChain h → LeftChain (popWhile r h)
+  | [], _ => by simp [popWhile, LeftChain]
+  | [_], _ => by simp [popWhile, LeftChain]
+  | b :: a :: rest, hc => by
+    rw [popWhile]
+    split_ifs
+    · exact popWhile_chain r (a :: rest) (LeftChain_tail _ hc)
+    · exact hc
+
+theorem popWhile_top (r : K × K) : ∀ (h : List (K × K)) (b a : K × K) (rest : List (K × K)),
+    popWhile r h = b :: a :: rest → turn a b r = 1
+  | [], b, a, rest, he => by simp [popWhile] at he
+  | [_], b, a, rest, he => by simp [popWhile] at he
+  | b' :: a' :: rest', b, a, rest, he => by
+    rw [popWhile] at he
+    split_ifs at he with hc
+    · exact popWhile_top r (a' :: rest') b a rest he
+    · simp only [List.cons.injEq] at he
+      obtain ⟨rfl, rfl, _⟩ := he
+      exact not_not.mp hc
+
+theorem keepLeft_chain (hull : List (K × K)) (r : K × K) (hc : LeftChain hull) : LeftChain (keepLeft hull r) := by
+  have h1 := popWhile_chain r hull hc
+  unfold keepLeft
+  simp only
+  split
+  · trivial
+  · rename_i t tl heq
+    rw [heq] at h1
+    split_ifs
+    all_goals rw [heq]
+    · cases tl with
+      | nil => trivial
+      | cons a rest => exact ⟨popWhile_top r hull t a rest heq, h1⟩
+    · exact h1
+
+theorem foldl_keepLeft_chain : ∀ (pts hull : List (K × K)), LeftChain hull → LeftChain (pts.foldl keepLeft hull)
+  | [], _, hc => hc
+  | r :: pts, hull, hc => foldl_keepLeft_chain pts _ (keepLeft_chain hull r hc)
+
+/-- the same in Python order (bottom first): consecutive triples of a half hull turn strictly left -/
+def LeftChainFwd : List (K × K) → Prop
+  | a :: b :: c :: rest => turn a b c = 1 ∧ LeftChainFwd (b :: c :: rest)
+  | _ => True
+
+theorem LeftChainFwd_append_of (l : List (K × K)) : ∀ (s : List (K × K)), LeftChain s → LeftChainFwd l →
+    (∀ a b c, s.head? = some b → s.tail.head? = some a → l.head? = some c → turn a b c = 1) →
+    (∀ b c d, s.head? = some b → l.head? = some c → l.tail.head? = some d → turn b c d = 1) →
+    LeftChainFwd (s.reverse ++ l)
+  | [], _, hl, _, _ => by simpa using hl
+  | [b], _, hl, _, h2 => by
+    cases l with
+    | nil => trivial
+    | cons c l' =>
+      cases l' with
+      | nil => trivial
+      | cons d l'' => exact ⟨h2 b c d rfl rfl rfl, hl⟩
+  | b :: a :: rest, hs, hl, h1, h2 => by
+    have : (b :: a :: rest).reverse ++ l = (a :: rest).reverse ++ (b :: l) := by simp
+    rw [this]
+    apply LeftChainFwd_append_of (b :: l) (a :: rest) (LeftChain_tail _ hs)
+    · cases l with
+      | nil => trivial
+      | cons c l' =>
+        cases l' with
+        | nil => trivial
+        | cons d l'' => exact ⟨h2 b c d rfl rfl rfl, hl⟩
+    · intro a' b' c' hb ha hc
+      simp only [List.head?_cons, Option.some.injEq] at hb hc
+      subst hb hc
+      cases rest with
+      | nil => simp at ha
+      | cons a'' rest' =>
+        simp only [List.tail_cons, List.head?_cons, Option.some.injEq] at ha
+        subst ha
+        exact hs.1
+    · intro b' c' d' hb hc hd
+      simp only [List.head?_cons, Option.some.injEq, List.tail_cons] at hb hc
+      subst hb hc
+      cases l with
+      | nil => simp at hd
+      | cons c l' =>
+        simp only [List.tail_cons, List.head?_cons, Option.some.injEq] at hd
+        subst hd
+        exact h1 _ _ _ rfl rfl rfl
+
+theorem halfHull_left_turns (pts : List (K × K)) : LeftChainFwd (halfHull pts) := by
+  unfold halfHull
+  have h := foldl_keepLeft_chain pts [] trivial
+  have := LeftChainFwd_append_of [] (pts.foldl keepLeft []) h trivial (by simp) (by simp)
+  simpa using this
 
 end Geomdl
